@@ -176,6 +176,14 @@ def answer (items : List Sexp) : Option String := do
     match skipField p k (encFor p v) with
     | .ok (cnt, w, rem) => pure s!"ok {match cnt with | some c => toString c | none => "-"} {w.toSexp} rem={rem}"
     | o => pure o.cls
+  | "skfx" =>
+    -- the same on given bytes (a reference encoding of the struct in any legal form)
+    let p ← items[1]? >>= Sexp.asAtom >>= SProto.of
+    let k ← items[3]? >>= Sexp.asNat
+    let input ← items[4]? >>= Sexp.asHex
+    match skipField p k input with
+    | .ok (cnt, w, rem) => pure s!"ok {match cnt with | some c => toString c | none => "-"} {w.toSexp} rem={rem}"
+    | o => pure o.cls
   | "sk" =>
     let p ← items[1]? >>= Sexp.asAtom >>= SProto.of
     let input ← items[2]? >>= Sexp.asHex
